@@ -106,6 +106,7 @@ class Run(object):
         self.finals = 0
         self.enters = 0
         self.others_done = 0
+        self.moved = 0
         self.first_final_bytes = None
 
     def file_bytes(self):
@@ -138,6 +139,15 @@ class Run(object):
             self.others_done += 1
             if self.file_bytes() != before:
                 return 'finalising other writers changed this file'
+            return None
+        if op[0] == 'moved':
+            # the caller uses the finalised file between two finalisations (reads it, seeks in it): the underlying
+            # stream is no longer at the position the writer left it at
+            before = self.file_bytes()
+            self.f.seek(min(op[1], len(before)))
+            self.moved += 1
+            if self.file_bytes() != before:
+                return 'seeking in the underlying file changed it'
             return None
         if op[0] == 'enter':
             before = self.file_bytes()
@@ -191,7 +201,7 @@ class Run(object):
                 tuple(len(r) for r in self.records), min(self.finals, 1),
                 # operations that must not matter are part of the key all the same: what they leave behind may live
                 # outside the writer object (module-level state of the library), where no attribute shows it
-                self.enters, self.others_done)
+                self.enters, self.others_done, self.moved)
 
     def dispose(self):
         try:
@@ -250,7 +260,8 @@ def enabled(hist):
     nw = sum(1 for op in hist if op[0] == 'w')
     ne = sum(1 for op in hist if op[0] == 'enter')
     no = sum(1 for op in hist if op[0] == 'others')
-    nf = len(hist) - nw - ne - no
+    nm = sum(1 for op in hist if op[0] == 'moved')
+    nf = len(hist) - nw - ne - no - nm
     ops = []
     if nf == 0 and nw < MAX_WRITES:
         ops += [('w', i) for i in range(len(REC_SIZES))]
@@ -262,6 +273,8 @@ def enabled(hist):
         ops.append(('enter',))
     if no < 1 and nf >= 1 and nf < MAX_FINALS:
         ops.append(('others', 300))       # between two finalisations of this writer
+    if nm < 1 and nf >= 1 and nf < MAX_FINALS:
+        ops += [('moved', 100), ('moved', 1 << 20)]     # 100 bytes in / at the end of the file
     return ops
 
 
@@ -278,7 +291,7 @@ def expand(batch):
                     acc.transitions += 1
                     acc.case((key, op), nontrivial=True, outcome=op[0])
                     if why:
-                        kind = 'first' if sum(1 for o in h2 if o[0] not in ('w', 'enter', 'others')) == 1 else 'repeat'
+                        kind = 'first' if sum(1 for o in h2 if o[0] not in ('w', 'enter', 'others', 'moved')) == 1 else 'repeat'
                         acc.viol('c11.%s.%s' % (kind, 'blocked' if cfg[1] else 'vbs'),
                                  {'cfg': list(cfg), 'hist': h2, 'seed': _SEED}, why,
                                  'file reads back as exactly the records written; later finalisations change nothing')
@@ -304,9 +317,14 @@ def run(tier, seed):
             for blocked in (False, True):
                 for fk in FILEKINDS:
                     cfg = (writer, blocked, fk)
+                    if core.AXIS and (len(init) + seed) % (8 if core.AXIS == 'debuglog' else 4) and len(init) < 64:
+                        # on an environment axis: every fourth (writer, blocking, file kind) combination
+                        init.append(None)
+                        continue
                     r, _ = replay(cfg, [])
                     init.append((r.key(), []))
                     r.dispose()
+        init = [x for x in init if x is not None]
         acc, seen = bfs.explore(init, expand, max_levels=12, max_states=200000)
     finally:
         if _TMP and os.path.isdir(_TMP):
